@@ -3,7 +3,8 @@
 // `reserve_bound` lets a unit state "never reserve more than the configured limit" as a precondition (negative = no budget imposed).
 // anything that can be read as a run of bytes (bytes::Buf seen through ALL its remaining bytes, AsRef<[u8]>, ...)
 pub trait HasBytes { spec fn bytes_view(&self) -> Seq<u8>; }
-pub struct BytesMut { pub v: Vec<u8>, pub reserve_bound: Ghost<int> }
+// `spare`: capacity known to be reserved beyond the written bytes (what the last reserve() guaranteed, minus what advance_mut used)
+pub struct BytesMut { pub v: Vec<u8>, pub reserve_bound: Ghost<int>, pub spare: Ghost<nat> }
 #[derive(Debug)]
 pub struct Bytes { pub v: Vec<u8> }
 impl Bytes {
@@ -59,8 +60,11 @@ impl BytesMut {
     #[verifier::external_body]
     pub fn reserve(&mut self, n: usize)
         requires old(self).reserve_bound@ < 0 || n <= old(self).reserve_bound@
-        ensures final(self)@ == old(self)@, final(self).reserve_bound == old(self).reserve_bound
+        ensures final(self)@ == old(self)@, final(self).reserve_bound == old(self).reserve_bound, final(self).spare@ >= n
     { unimplemented!() }
+    // A-bytes-34: capacity() is at least the written bytes plus the capacity known to be reserved
+    #[verifier::external_body]
+    pub fn capacity(&self) -> (r: usize) ensures r >= self@.len() + self.spare@ { unimplemented!() }
     // A-bytes-04: clear empties
     #[verifier::external_body]
     pub fn clear(&mut self)
@@ -77,11 +81,13 @@ impl BytesMut {
     pub fn put<T: HasBytes>(&mut self, b: T)
         ensures final(self)@ == old(self)@ + b.bytes_view(), final(self).reserve_bound == old(self).reserve_bound
     { unimplemented!() }
-    // A-bytes-07: advance_mut exposes `cnt` reserved (uninitialised) bytes; their values are arbitrary
+    // A-bytes-07: advance_mut exposes `cnt` reserved (uninitialised) bytes; their values are arbitrary.  It panics when fewer
+    // than `cnt` bytes of capacity are left (here: a precondition, the safety condition of this unsafe fn)
     #[verifier::external_body]
     pub unsafe fn advance_mut(&mut self, cnt: usize)
+        requires cnt <= old(self).spare@
         ensures final(self)@.len() == old(self)@.len() + cnt, final(self)@.take(old(self)@.len() as int) == old(self)@,
-            final(self).reserve_bound == old(self).reserve_bound
+            final(self).reserve_bound == old(self).reserve_bound, final(self).spare@ == old(self).spare@ - cnt
     { unimplemented!() }
     // A-bytes-08: split_to(at) returns the first `at` bytes and keeps the rest
     #[verifier::external_body]
